@@ -187,4 +187,45 @@ def run(tier: str) -> Run:
         for _ in range(n - len(instances[rule])):
             rr.ok('configuration')
     run.extra['configurations'] = n
+
+    # ---- R4: the array writer behind the pixel and histogram blocks -------------------------------------------------
+    # declared block sizes are computed from shapes; the bytes come from LowLevelSqw.write_array.  It must write every
+    # element exactly once, in order, whatever the size of the array (0 elements .. more than 1 MiB) and the target.
+    r4 = run.rule('R4', 'write_array writes exactly the elements of the array, in order: empty, small and larger than 1 MiB, in memory and to a file, '
+                        'both byte orders', 8)
+    from sa.absio import AbsFile, Elem, NdArr
+    from sa.sqwio import set_shape
+    from .sqw_af import World
+    LL = 'io.sqw._low_level_io'
+    wfi = repo.func(LL, 'LowLevelSqw.write_array')
+    sizes = (0, 5, (1 << 17) + 3) if tier == 'quick' else (0, 1, 5, 4096, (1 << 17) + 3, (1 << 18) + 1)
+    for n_el, in_memory, bo in itertools.product(sizes, (True, False), ('little', 'big')):
+        if n_el > 100 and (not in_memory or bo == 'big') and tier == 'quick':
+            continue
+        w = World(repo)
+        target = AbsFile(in_memory)
+        ll = SObj(repo.cls(LL, 'LowLevelSqw'), {'_file': target, '_byteorder': w.enum('io.sqw._bytes', 'Byteorder', bo), '_path': None})
+        base = w.sv('arr', None, (n_el,), dtype='float64', dims=['x'])
+        raw = w.model.raw(w.it, base, None, 'values')
+        set_shape(raw, (n_el,), ['x'])
+        arr = NdArr.whole(raw, (n_el,), 'float64')
+        kind, res = w.call(wfi, [arr], bound=ll)
+        inst = f'{n_el} float64 elements, {"BytesIO" if in_memory else "file"}, {bo}'
+        problem = None
+        if kind != 'return':
+            problem = f'{kind}: {res}'[:200]
+        else:
+            units = target.units
+            order = '<' if bo == 'little' else '>'
+            if len(units) != 8 * n_el:
+                problem = f'{len(units)} bytes written for {n_el} elements ({8 * n_el} bytes)'
+            else:
+                for i in range(n_el):
+                    u = units[8 * i:8 * i + 8]
+                    cell = u[0][0] if not isinstance(u[0], int) else None
+                    if cell is None or any(isinstance(x, int) or x[0] is not cell or x[1] != k for k, x in enumerate(u)) \
+                            or not (isinstance(cell.value, Elem) and cell.value.idx == i) or cell.order != order or cell.dtype != 'float64':
+                        problem = f'bytes {8 * i}..{8 * i + 7} do not hold element {i} as a {order}float64: {cell!r}'
+                        break
+        r4.check(problem is None, inst, loc(wfi), {'problem': problem}, key=f'write-array:{"large" if n_el > 100 else "small"}')
     return run
